@@ -684,3 +684,57 @@ Proof.
     assert (NZ : ~ orient a b c == 0) by lra.
     rewrite (incircum_ok a b c p NZ). nra.
 Qed.
+
+(* ================================================================== 8. the cavity hypotheses are decidable *)
+Lemma edge_eqb_eq : forall e f, edge_eqb e f = true <-> e = f.
+Proof.
+  intros [a b] [c d]. unfold edge_eqb. cbn [fst snd]. rewrite andb_true_iff, !Nat.eqb_eq. split.
+  - intros [-> ->]. reflexivity.
+  - intros H. injection H as -> ->. auto.
+Qed.
+
+Lemma star_shapedb_ok : forall P T i, star_shapedb P T i = true -> star_shaped P T i.
+Proof.
+  intros P T i H e He. unfold star_shapedb in H. rewrite forallb_forall in H.
+  apply Qltb_lt. apply H. exact He.
+Qed.
+
+Lemma olds_at_in : forall n k j, old_at n k j -> In j (olds_at n k).
+Proof.
+  intros n k j [H|H]; unfold olds_at; apply in_or_app.
+  - left. apply in_seq. lia.
+  - right. simpl. lia.
+Qed.
+
+Lemma continues_behindb_ok : forall P T i n k,
+  continues_behindb P T i (olds_at n k) = true -> continues_behind P T i (old_at n k).
+Proof.
+  intros P T i n k H e j He Hj Side. unfold continues_behindb in H. rewrite forallb_forall in H.
+  specialize (H e He). apply orb_true_iff in H. destruct H as [H|H].
+  - apply existsb_exists in H. destruct H as [g [Hg H]]. exists g. split; [exact Hg|].
+    apply existsb_exists in H. destruct H as [f [Hf E]]. apply edge_eqb_eq in E. subst f. exact Hf.
+  - rewrite forallb_forall in H. specialize (H j (olds_at_in n k j Hj)).
+    apply negb_true_iff, Qltb_nlt in H. contradiction.
+Qed.
+
+Lemma cav_run_ok : forall P n m a T,
+  cav_run P n (seq a m) T = true ->
+  forall k, (a <= k < a + m)%nat ->
+    star_shaped P (fold_left (insert P) (seq a (k - a)) T) k /\
+    continues_behind P (fold_left (insert P) (seq a (k - a)) T) k (old_at n k).
+Proof.
+  intros P n m. induction m as [|m IH]; intros a T H k Hk; [lia|].
+  cbn [seq cav_run] in H. apply andb_true_iff in H. destruct H as [H H3].
+  apply andb_true_iff in H. destruct H as [H1 H2].
+  destruct (Nat.eq_dec k a) as [->|Ne].
+  - replace (a - a)%nat with 0%nat by lia. cbn [seq fold_left].
+    split; [apply star_shapedb_ok; exact H1|apply continues_behindb_ok; exact H2].
+  - specialize (IH (S a) (insert P T a) H3 k ltac:(lia)).
+    replace (k - a)%nat with (S (k - S a)) by lia. cbn [seq fold_left]. exact IH.
+Qed.
+
+Theorem cavities_okb_ok : forall super pts, cavities_okb super pts = true -> cavities_ok super pts.
+Proof.
+  intros super pts H k Hk. unfold cavities_okb in H.
+  pose proof (cav_run_ok _ _ _ _ _ H k ltac:(lia)) as R. rewrite Nat.sub_0_r in R. exact R.
+Qed.
